@@ -395,8 +395,10 @@ fn record(out: &str, a: &Args) {
         if size == 2 && secb.len() > 0x7000 {
             continue;
         }
-        let mut sorted = fdes.clone();
-        sorted.sort_by_key(|x| x.1);
+        // table order = ascending address; fidx[i] = position in the section's FDE list (a hint)
+        let mut fidx: Vec<usize> = (0..fdes.len()).collect();
+        fidx.sort_by_key(|&i| fdes[i].1);
+        let sorted: Vec<(usize, u64, u64)> = fidx.iter().map(|&i| fdes[i]).collect();
         // lay out the header from the listed values
         let fmt: u8 = match (size, signed) {
             (2, false) => 0x02,
@@ -434,7 +436,7 @@ fn record(out: &str, a: &Args) {
         let small = sorted.len() <= 48;
         evs.push(json!({"ev":"Table","le":le,"size":size,"tenc":tenc,"penc":penc,"cenc":cenc,"t0":t0,
             "ehptr":bv(parsed.eh_frame_ptr().pointer(),8),"hbase":bv(hdrbase,8),
-            "rows":rows,
+            "rows":rows,"fidx":fidx,
             "fdes":fdes.iter().map(|(o,s,l)| json!([o, bv(*s,8), bv(*l,8)])).collect::<Vec<_>>(),
             "hdr": if small { bytes_json(&hb) } else { json!([]) },
             "raw": if small { Value::Array(rows_raw) } else { json!([]) },
